@@ -355,13 +355,17 @@ func TestC14(t *testing.T) {
 
 // TestC14Fanout: concurrent whole requests, reverse-DNS fan-outs and allocator callers under the race detector.
 func TestC14Fanout(t *testing.T) {
-	rec := NewRecorder("C14", "C14Fanout", "rapid under the race detector: RunTraceroute (half of the cases two requests at the same time on one Traceroute object) with 2..5 concurrent runs + 0..6 e2e probes over the simulated wire, a stub or the real public-IP fetcher (over scripted providers: answering, failing once, down; or as the plain constructor makes it, first used by both requests at once, with the answer already cached), reverse-DNS fan-out over 1..40 addresses with a scripted resolver, and concurrent allocator callers; oracle: zero race reports")
+	rec := NewRecorder("C14", "C14Fanout", "rapid under the race detector: RunTraceroute (half of the cases two requests at the same time on one Traceroute object) with 2..5 concurrent runs + 0..6 e2e probes to an IPv4 or (a third) an IPv6 target over the simulated wire, a stub or the real public-IP fetcher (over scripted providers: answering, failing once, down; or as the plain constructor makes it, first used by both requests at once, with the answer already cached), reverse-DNS fan-out over 1..40 addresses with a scripted resolver, and concurrent allocator callers; oracle: zero race reports")
 	RunProp(t, rec, func(rt *rapid.T) *Request {
 		rq := &Request{}
 		rq.P = ReqParams{Hostname: "93.184.216.34", Port: 443, Protocol: oneOf(rt, "proto", "udp", "icmp", "tcp"), MinTTL: 1, MaxTTL: rapid.IntRange(2, 6).Draw(rt, "max"),
 			DelayMs: oneOf(rt, "delay", 0, 2), TimeoutMs: 60, Queries: rapid.IntRange(2, 5).Draw(rt, "q"), E2e: rapid.IntRange(0, 6).Draw(rt, "e2e"),
 			ReverseDns: true, PublicIP: rapid.Bool().Draw(rt, "pubip")}
 		rq.Scripts = []FlowScript{{DestDist: oneOf(rt, "dest", 0, 3, 5), Default: HopSpec{DelayUs: 2000}}, {DestDist: 4, Default: HopSpec{DelayUs: 9000}}}
+		// either family: the concurrent runs of one request share whatever the family's reply decoding shares
+		if oneOf(rt, "family", "v4", "v4", "v6") == "v6" {
+			rq.P.Hostname = "2001:db8:ffff::1"
+		}
 		rq.DNSDefault = DNSScript{Names: []string{"x.example."}, DelayMs: oneOf(rt, "dns_delay", 0, 3)}
 		// two requests served by one process at the same time (they share the reverse-DNS cache and the fetcher)
 		if oneOf(rt, "two_requests", false, true) {
